@@ -217,3 +217,103 @@ Section Codecs.
     | None => Some stored
     end.
 End Codecs.
+
+(* ====================================================================================
+   The registry as process-wide state: CODEC_REGISTRY, get_registry, register_codec.
+   Everything above is the registry of a process in which `register_codec` is never called
+   (`registry`); below, detection is parameterised by the registry contents.
+   ==================================================================================== *)
+
+(* identity of a registered codec: a built-in one or the k-th custom one (harness numbering) *)
+Inductive cid := CBuiltin (c : codec) | CCustom (k : nat).
+
+(* what detection looks at: CompressionCodec::extensions / magic_bytes *)
+Record centry := { ce_id : cid; ce_exts : list bytes; ce_magic : option bytes }.
+
+Definition builtin_entry (c : codec) : centry :=
+  {| ce_id := CBuiltin c; ce_exts := extensions c; ce_magic := Some (magic c) |}.
+(* init_registry() *)
+Definition builtin_entries : list centry := map builtin_entry registry.
+
+(* CODEC_REGISTRY : RwLock<Option<Vec<..>>>, initially None *)
+Definition reg_state := option (list centry).
+Inductive reg_op :=
+| OpGet                      (* get_registry(): every detect_from_extension / detect_from_magic *)
+| OpRegister (e : centry).   (* register_codec(e) *)
+
+(* both functions: `if lock.is_none() { *lock = Some(init_registry()) }`, then clone / push *)
+Definition reg_init (st : reg_state) : list centry :=
+  match st with None => builtin_entries | Some l => l end.
+Definition reg_step (st : reg_state) (op : reg_op) : reg_state :=
+  match op with
+  | OpGet => Some (reg_init st)
+  | OpRegister e => Some (reg_init st ++ [e])
+  end.
+Definition reg_run (ops : list reg_op) : reg_state := fold_left reg_step ops None.
+(* what the next get_registry() returns *)
+Definition reg_view (st : reg_state) : list centry := reg_init st.
+Definition registered (ops : list reg_op) : list centry :=
+  flat_map (fun op => match op with OpRegister e => [e] | OpGet => [] end) ops.
+(* the registry of a process that registered `customs` (in this order), whenever it did so *)
+Definition registry_after (customs : list centry) : list centry := builtin_entries ++ customs.
+
+(* `codec.extensions().any(|e| path_str.ends_with(e))` for an arbitrary registered codec
+   (a custom extension that is not lower-case can never match: the path is lower-cased, the
+   extension is used as given) *)
+Definition entry_has_ext (e : centry) (path : bytes) : bool :=
+  existsb (fun x => ends_with x (lower path)) (ce_exts e).
+(* `magic_bytes() = Some(m) && buf.len() >= m.len() && buf.starts_with(m)` *)
+Definition entry_has_magic (e : centry) (buf : bytes) : bool :=
+  match ce_magic e with
+  | Some m => (length m <=? length buf)%nat && starts_with m buf
+  | None => false
+  end.
+
+Definition detect_ext_in (reg : list centry) (path : bytes) : option cid :=
+  option_map ce_id (find (fun e => entry_has_ext e path) reg).
+
+Definition detect_magic_in (reg : list centry) (content : bytes) : option cid :=
+  let buf := peek content in
+  match buf with
+  | [] => None
+  | _ => option_map ce_id (find (fun e => entry_has_magic e buf) reg)
+  end.
+
+Definition reader_codec_in (reg : list centry) (path content : bytes) : option cid :=
+  match detect_ext_in reg path with
+  | Some c => Some c
+  | None => detect_magic_in reg content
+  end.
+
+(* entry points; write_cloud_jsonl_vec keeps its hard-coded table: it never uses a custom codec *)
+Definition ep_writer_codec_in (reg : list centry) (w : writer_ep) (path : bytes) : option cid :=
+  match writer_detection w with
+  | DExt | DExtMagic => detect_ext_in reg path
+  | DCloudTable => option_map CBuiltin (cloud_writer_codec path)
+  | DNone => None
+  end.
+
+Definition ep_reader_codec_in (reg : list centry) (r : reader_ep) (path content : bytes)
+  : option cid :=
+  match reader_detection r with
+  | DExtMagic => reader_codec_in reg path content
+  | DExt | DCloudTable => detect_ext_in reg path
+  | DNone => None
+  end.
+
+Section CodecsIn.
+  Variable enc : cid -> bytes -> bytes.
+  Variable dec : cid -> bytes -> option bytes.
+
+  Definition write_in (reg : list centry) (w : writer_ep) (path b : bytes) : bytes :=
+    match ep_writer_codec_in reg w path with
+    | Some c => enc c b
+    | None => b
+    end.
+
+  Definition read_in (reg : list centry) (r : reader_ep) (path stored : bytes) : option bytes :=
+    match ep_reader_codec_in reg r path stored with
+    | Some c => dec c stored
+    | None => Some stored
+    end.
+End CodecsIn.
